@@ -151,9 +151,13 @@ func (r *runner) caseConcurrent(i int) {
 	rounds := 2 + rr.IntN(3)
 	// bound the work of one case (~32 MiB of image bytes measured in total, a few hundred ms of CPU)
 	rr.Shuffle(len(jobs), func(a, b int) { jobs[a], jobs[b] = jobs[b], jobs[a] })
-	perRound := func() (n int) {
+	perRound := func() (n int) { // bytes hashed per pass over the job list (record stream incl. temporary memory; twice when the regions are measured again)
 		for _, j := range jobs {
-			n += len(j.fw)
+			b := j.exp.PageAdds*128 + j.exp.Extends*384
+			if j.extract {
+				b *= 2
+			}
+			n += b
 		}
 		return
 	}
@@ -191,7 +195,9 @@ func (r *runner) caseConcurrent(i int) {
 	r.brk.cas.Store(int64(i))
 	r.brk.entry.Store(eMRTD)
 	r.brk.gen.Store(gen)
-	r.brk.start.Store(procCPU() | 1)
+	r.brk.limit.Store(int64(batchCPULimit)) // the whole batch is one guarded unit: ~0.3 s of honest work
+	cpu0 := procCPU()
+	r.brk.start.Store(cpu0 | 1)
 	for g := 0; g < nG; g++ {
 		wg.Add(1)
 		go func(g int) {
@@ -271,6 +277,8 @@ func (r *runner) caseConcurrent(i int) {
 	close(start)
 	wg.Wait()
 	r.brk.start.Store(0)
+	c.Max("concurrent/batch_process_cpu_ms", (procCPU()-cpu0)/1e6)
+	r.brk.limit.Store(int64(callCPULimit))
 	c.Eval(nG * rounds * len(jobs))
 	c.Count("concurrent/tdx.MRTD-equal", okCalls)
 	c.Count("concurrent/extract-equal", okExtract)
